@@ -468,21 +468,52 @@ func (p *untypedParamBinder) readFormattedSliceFieldValue(data string, target re
 	return swag.SplitByFormat(data, p.parameter.CollectionFormat), false, nil
 }
 
+// sliceDefault converts the declared default of an array parameter to the slice
+// type being bound: a default read from a JSON or YAML document is a
+// []interface{} holding float64, string or bool items.
+func (p *untypedParamBinder) sliceDefault(tpe reflect.Type, defaultValue interface{}) (reflect.Value, error) {
+	dv := reflect.ValueOf(defaultValue)
+	if dv.Type().AssignableTo(tpe) {
+		return dv, nil
+	}
+	invalid := errors.New(http.StatusInternalServerError, "the default value of %s in %s is not a valid array for this parameter", p.Name, p.parameter.In)
+	if dv.Kind() != reflect.Slice {
+		return reflect.Value{}, invalid
+	}
+	elem := tpe.Elem()
+	res := reflect.MakeSlice(tpe, dv.Len(), dv.Len())
+	for i := 0; i < dv.Len(); i++ {
+		item := dv.Index(i)
+		if item.Kind() == reflect.Interface {
+			item = item.Elem()
+		}
+		// no conversion between numbers and strings (that would yield runes)
+		if !item.IsValid() || !item.Type().ConvertibleTo(elem) || (item.Kind() == reflect.String) != (elem.Kind() == reflect.String) {
+			return reflect.Value{}, invalid
+		}
+		res.Index(i).Set(item.Convert(elem))
+	}
+	return res, nil
+}
+
 func (p *untypedParamBinder) setSliceFieldValue(target reflect.Value, defaultValue interface{}, data []string, hasKey bool) error {
 	sz := len(data)
 	if (!hasKey || (!p.parameter.AllowEmptyValue && (sz == 0 || (sz == 1 && data[0] == "")))) && p.parameter.Required && defaultValue == nil {
 		return errors.Required(p.Name, p.parameter.In, data)
 	}
 
-	defVal := reflect.Zero(target.Type())
-	if defaultValue != nil {
-		defVal = reflect.ValueOf(defaultValue)
-	}
-
 	if !target.CanSet() {
 		return nil
 	}
 	if sz == 0 {
+		defVal := reflect.Zero(target.Type())
+		if defaultValue != nil {
+			dv, err := p.sliceDefault(target.Type(), defaultValue)
+			if err != nil {
+				return err
+			}
+			defVal = dv
+		}
 		target.Set(defVal)
 		return nil
 	}
